@@ -279,6 +279,41 @@ func monC07(x *Ctx) {
 			})
 		}
 		_ = model
+		// the same object handed over with its own Null / Unknown flag set (hand-built; the attributes are
+		// still there): a root-level group without a known branch is nil afterwards whatever the target held
+		if names, groups := groupsOf(x.Root); len(names) > 0 && i%2 == 1 {
+			flagged := obj
+			flagged.Null, flagged.Unknown = i%4 == 1, i%4 == 3
+			q, _ := x.NewValue(fmt.Sprintf("%s/prior-flagged", in), mDense)
+			x.Eval(1)
+			out := x.CopyFrom(flagged, q)
+			if out.Panic != nil {
+				x.Violate(panicFP("CopyFrom", out)+"/root-flagged/"+x.embedTypeClass(), in, "CopyFrom panicked on an object whose own null/unknown flag is set", map[string]interface{}{"panic": panicDetail(out)})
+			} else {
+				mv := reflect.ValueOf(q).Elem()
+				for _, gn := range names {
+					br := groups[gn]
+					anyKnown := false
+					for _, a := range br {
+						if !absent(flagged.Attrs[a.Attr]) {
+							anyKnown = true
+						}
+					}
+					if anyKnown || len(br[0].Access) > 0 {
+						continue // groups declared in embedded messages are judged above (finding D10)
+					}
+					cont, ok := container(mv, br[0], false)
+					if !ok {
+						continue
+					}
+					x.Count("from-groups-judged-root-flagged", 1)
+					if h := cont.FieldByName(br[0].Oneof.Holder); !h.IsNil() {
+						x.Violate("from/not-nil/root-flagged", in, fmt.Sprintf("%s: all branches of %s null/unknown (object flagged null=%v unknown=%v) but the holder still is %s", x.Root.Name, gn, flagged.Null, flagged.Unknown, h.Elem().Type()),
+							map[string]interface{}{"object": dumpTF(flagged)})
+					}
+				}
+			}
+		}
 	}
 	// --- CopyTo into an empty object ---------------------------------------------
 	for i := 0; i < n; i++ {
